@@ -87,6 +87,15 @@ func TestSeeds(t *testing.T) {
 			cv.wire[3], cv.wire[4] = cv.wire[4], cv.wire[3]
 			return cv
 		}, false},
+		{"synack-lost", pcapEth, func() *conv {
+			// SYN, ACK, c>data(3), c>data(2): the server's SYN+ACK is not captured
+			cv := seedConv(seedConn(40000, 80, 1000, 2000, []int{3, 2}, nil, false), []int{0, 0})
+			cv.wire = append(cv.wire[:1], cv.wire[2:]...)
+			return cv
+		}, false},
+		{"pcapng-second-section-other-link-type", fileSpec{Format: "pcapng", Links: []int{pcapgen.LinkRaw}, Vlan: -1, PreSection: true}, func() *conv {
+			return seedConv(seedConn(40000, 80, 1000, 2000, []int{5}, []int{3}, true), []int{0, 1, 0, 1})
+		}, false},
 		{"pcapng-explicit-section-length", fileSpec{Format: "pcapng", Links: []int{pcapgen.LinkEthernet}, Vlan: -1, ExplicitLen: true, Extras: 1}, func() *conv {
 			return seedConv(seedConn(40000, 80, 1000, 2000, []int{5}, []int{3}, true), []int{0, 1, 0, 1})
 		}, false},
@@ -118,14 +127,25 @@ func TestSeeds(t *testing.T) {
 				report("pcapng-explicit-section-length", fmt.Sprintf("the same pcapng section reads differently with an explicit section length (error: %v) and with section length -1 (error: %v)", e1, e2))
 			}
 		}
-		obs, err := observeTree(data, sd.file.Format)
+		all, err := observeTreeAll(data, sd.file.Format)
 		if err != nil {
 			report("observe-error", err.Error())
 			continue
 		}
-		fails, _ := diffObs(cv.expect(), obs, sd.disordered)
+		obs := &observation{}
+		for _, o := range all {
+			obs.Conns = append(obs.Conns, o.Conns...)
+			obs.Reasm = append(obs.Reasm, o.Reasm...)
+		}
+		ex := cv.expect()
+		q := ""
+		if sd.file.PreSection {
+			ex.Conns = append(preConv().expect().Conns, ex.Conns...)
+			q = "pcapng-sections:"
+		}
+		fails, _ := diffObs(ex, obs, sd.disordered)
 		for _, f := range fails {
-			report(f.sig, f.msg)
+			report(q+f.sig, f.msg)
 		}
 	}
 }
